@@ -989,6 +989,39 @@ func (d *Driver) doSendChunk(st *Step) {
 	}
 	var uoa message.UpstreamOrAlias
 	info := d.b.UpInfo(st.Up)
+	// alias -1 = "the alias the client announced for this name": wait (bounded) for the announcement; a broker
+	// never guesses an alias it has not been told (the property does not define that case) -> the step is skipped
+	waitAlias := func(get func() uint32) uint32 {
+		deadline := time.Now().Add(400 * time.Millisecond)
+		for {
+			if a := get(); a != 0 {
+				return a
+			}
+			if time.Now().After(deadline) {
+				return 0
+			}
+			time.Sleep(2 * time.Millisecond)
+		}
+	}
+	if st.UpF == "alias" && st.UpAl < 0 {
+		a := waitAlias(func() uint32 { return d.b.AnnouncedUp(dn, st.Up) })
+		if a == 0 {
+			d.rec.Log("SendSkipped", "why", "upstream alias not announced", "up", st.Up, "seq", st.Seq)
+			return
+		}
+		st.UpAl = int(a)
+	}
+	for gi := range st.Groups {
+		if st.Groups[gi].F == "al" && st.Groups[gi].Al < 0 {
+			name := st.Groups[gi].ID
+			a := waitAlias(func() uint32 { return d.b.AnnouncedId(dn, name) })
+			if a == 0 {
+				d.rec.Log("SendSkipped", "why", "data id alias not announced", "id", name, "seq", st.Seq)
+				return
+			}
+			st.Groups[gi].Al = int(a)
+		}
+	}
 	if st.UpF == "alias" {
 		uoa = message.UpstreamAlias(uint32(st.UpAl))
 	} else {
